@@ -202,6 +202,15 @@ def ob_wiring(k, mode, log):
                 if not okfb:
                     return [struct(oid, False, 'fallback value is not the finest-grid result %s: %s' % (best[:80], [vrepr(_strip(s_[3]))[:160] for s_ in sets]), fn,
                                    finding_key='C07/extrap_func/fallback-source')]
+                # ... and an entry is flagged exactly when the extrapolated VALUE (after exp in log mode) is more than fail_mag *decades* from the
+                # finest-grid VALUE:  abs(log10(ex/best)) > fail_mag, in linear and in log mode alike
+                crit = vrepr(_strip(sets[0][2])).replace('call:lib:numpy.', '').replace('call:numpy.', '').replace('call:', '')
+                exs = vrepr(_strip(want)).replace('call:lib:numpy.', '').replace('call:numpy.', '').replace('call:', '')
+                bests = best.replace('call:lib:numpy.', '').replace('call:numpy.', '').replace('call:', '')
+                want_crit = 'cmp:Gt(abs(log10(op:Div(%s, %s))), 10)' % (exs, bests)      # fail_mag has its default, 10 decades
+                if crit != want_crit:
+                    return [struct(oid, False, 'fallback criterion is not abs(log10(extrapolated/finest)) > fail_mag on the values: got %s ; expected %s' % (crit[-160:], want_crit[-160:]), fn,
+                                   finding_key='C07/extrap_func/fallback-criterion')]
             # labels
             pid = p.value.attrs.get('pop_ids') if isinstance(p.value, Tm) else None
             ok = isinstance(pid, Tm) and pid.op == 'pop_ids' and pid.args[0] is pts[0]
@@ -281,7 +290,7 @@ def bounded(ncoef, tier):
     evals = nontriv = 0
     samples = []
     fails = []
-    bound = 'k=1..6; %d coefficient sets; all orderings of the grid list for k<=4, 24 sampled for k=5,6; scalar-array and Spectrum values; linear and log modes; fallback on/off' % ncoef
+    bound = 'k=1..6; %d coefficient sets; all orderings of the grid list for k<=4, 24 sampled for k=5,6; scalar-array and Spectrum values; linear and log modes; fallback on/off (linear mode: sign-changing entry; log mode: entries 0.3-2.0 x fail_mag decades from the finest grid, fail_mag in {2,5,10})' % ncoef
     distinct = set()
     for ci in range(ncoef):
         for k in range(1, 7):
@@ -329,6 +338,33 @@ def bounded(ncoef, tier):
                             fails.append(dict(k=k, pts=list(perm), log=log, error='pop_ids lost'))
                         if len(samples) < 4 and k > 1:
                             samples.append(dict(k=k, pts=list(perm), log=log, shape=list(shape), rel_err=err))
+    # log mode: the threshold is fail_mag DECADES of the value.  exp(a + b x) extrapolates exactly in log mode (k = 2); with b/pts decades between
+    # the finest grid and x = 0 the entry must fall back iff that distance exceeds fail_mag
+    for trial in range(12 if tier == 'quick' else 120):
+        pts = sorted(rng.sample(range(10, 40), 2))
+        fm = rng.choice([2, 5, 10])
+        dec = rng.choice([0.3, 0.8]) * fm if trial % 2 == 0 else rng.uniform(1.2, 2.0) * fm     # decades between finest-grid value and the limit
+        b = dec * numpy.log(10.0) * max(pts)
+
+        def lmodel(pts_, _b=b):
+            x = 1.0 / pts_
+            class A(numpy.ndarray):
+                pass
+            v = numpy.exp(numpy.array([0.3 + 0.1 * x, -2.0 + _b * x])).view(A)
+            v.extrap_x = x
+            return v
+        flog = Numerics.make_extrap_func(lmodel, extrap_log=True, fail_mag=fm)
+        order = pts[:]
+        rng.shuffle(order)
+        with numpy.errstate(all='ignore'):
+            got = numpy.asarray(flog(order))
+        finest = numpy.asarray(lmodel(max(pts)))
+        exact = numpy.exp(numpy.array([0.3, -2.0]))
+        want = numpy.array([exact[0], finest[1] if dec > fm else exact[1]])
+        evals += 1
+        distinct.add(('fallback-log', tuple(order), fm, round(dec, 3)))
+        if not numpy.allclose(got, want, rtol=1e-9, atol=0):
+            fails.append(dict(fallback_log=True, pts=order, fail_mag=fm, decades_from_finest=dec, got=got.tolist(), want=want.tolist()))
     # fallback: an entry whose extrapolation is > fail_mag decades away falls back to the finest grid value
     for trial in range(20 if tier == 'quick' else 200):
         k = rng.choice([2, 3])
